@@ -160,6 +160,14 @@ PROPS = {
         "families": [("core", 250, 2500)],
         "relevant": r'"op":"send"', "relevant_min": 1,
     },
+    "C13": {
+        "invariants": ["C13", "C04", "Term_StopHonoured", "Term_WeakInert"],
+        "mc": {"quick": [mc("Stream-2x2", ops=("send", "stop", "drop", "feed", "end_stream"), scripts="ScriptsPlain", cfgs="CfgsStream",
+                            must_cover=("StreamItem", "StreamDone", "FinishedEnd", "StreamFeed", "StopTaken", "MailboxClosed"))],
+               "thorough": [mc("Stream-2x3", maxops=3, ops=("send", "call", "stop", "drop", "feed", "end_stream", "await"), scripts="ScriptsStop", cfgs="CfgsStream")]},
+        "families": [("stream", 300, 3000)],
+        "relevant": r'"src":"stream"|"name":"fb"', "relevant_min": 1,
+    },
     "C14": {
         "invariants": ["C14"],
         "mc": {"quick": [mc("Query-2x3", maxops=3, ops=QOPS, scripts="ScriptsPlain", cfgs="CfgsUnb", must_cover=("Query", "AwaitReturn", "StopTaken"))],
